@@ -23,30 +23,6 @@ import (
 
 func init() { facts["websocket"] = websocketFacts }
 
-func (p *pkgInfo) funcDecl(recv, name string) *ast.FuncDecl {
-	for _, f := range p.files {
-		for _, d := range f.Decls {
-			fd, ok := d.(*ast.FuncDecl)
-			if !ok || fd.Name.Name != name {
-				continue
-			}
-			if recv == "" && fd.Recv == nil {
-				return fd
-			}
-			if fd.Recv != nil && len(fd.Recv.List) == 1 {
-				t := fd.Recv.List[0].Type
-				if st, ok := t.(*ast.StarExpr); ok {
-					t = st.X
-				}
-				if id, ok := t.(*ast.Ident); ok && id.Name == recv {
-					return fd
-				}
-			}
-		}
-	}
-	return nil
-}
-
 func funcName(fd *ast.FuncDecl) string {
 	if fd.Recv != nil && len(fd.Recv.List) == 1 {
 		t := fd.Recv.List[0].Type
@@ -58,21 +34,6 @@ func funcName(fd *ast.FuncDecl) string {
 		}
 	}
 	return fd.Name.Name
-}
-
-// selPath renders a.b.c selector chains ("" if not a pure chain).
-func selPath(e ast.Expr) string {
-	switch x := e.(type) {
-	case *ast.Ident:
-		return x.Name
-	case *ast.SelectorExpr:
-		b := selPath(x.X)
-		if b == "" {
-			return ""
-		}
-		return b + "." + x.Sel.Name
-	}
-	return ""
 }
 
 func hasSuffixPath(e ast.Expr, suffix string) bool {
